@@ -12,7 +12,6 @@ import (
 	"syscall"
 	"time"
 
-	"cedarverif/internal/wire"
 
 	"github.com/bbockelm/cedar/security"
 	"github.com/bbockelm/cedar/stream"
@@ -65,11 +64,25 @@ func (e *Env) Run(c Concrete, tok string) Obs {
 			watch = append(watch, o.SentPath)
 		}
 	}
-	if replace {
-		o.Before = e.scan(tok, watch)
-		if len(o.Before) > 0 {
-			e.cleanup(o.Before)
+	base := map[string]bool{} // entries with a watched name that exist anyway (fixture, other software)
+	if replace && len(watch) > 0 {
+		for _, p := range e.scan(tok, watch) {
+			if tok != "" && strings.Contains(filepath.Base(p), tok) {
+				o.Before = append(o.Before, p)
+			} else {
+				base[p] = true
+			}
 		}
+		e.cleanup(o.Before)
+	}
+	diff := func(ps []string) []string {
+		var out []string
+		for _, p := range ps {
+			if !base[p] {
+				out = append(out, p)
+			}
+		}
+		return out
 	}
 
 	host := net.JoinHostPort(e.IP[fam], e.Port[fam])
@@ -85,7 +98,7 @@ func (e *Env) Run(c Concrete, tok string) Obs {
 
 	var mu sync.Mutex
 	stage := 0 // 0: before the path, 1: path delivered, 2: result seen, 3: verdict seen
-	ec := &wire.EditConn{Conn: raw}
+	ec := &EditConn{Conn: raw}
 	var realDir string // symlink target made for the server-side case
 	ec.OnInbound = func(end byte, body []byte) []byte {
 		mu.Lock()
@@ -116,7 +129,7 @@ func (e *Env) Run(c Concrete, tok string) Obs {
 			// the connection breaks just before the result code leaves the client
 			_ = raw.Close()
 			stage = 2
-			return nil, wire.ErrInjected
+			return nil, ErrInjected
 		}
 		stage = 2
 		if len(body) == 8 {
@@ -125,7 +138,7 @@ func (e *Env) Run(c Concrete, tok string) Obs {
 		}
 		// observation point "result code on the wire": the server has not seen it yet
 		if replace {
-			o.AtResult = e.scan(tok, watch)
+			o.AtResult = diff(e.scan(tok, watch))
 		} else if _, err := os.Lstat(o.ServerPath); err == nil {
 			o.AtResult = []string{o.ServerPath}
 		}
@@ -158,7 +171,7 @@ func (e *Env) Run(c Concrete, tok string) Obs {
 	case <-time.After(10 * time.Second):
 	}
 	if replace {
-		o.After = e.scan(tok, watch)
+		o.After = diff(e.scan(tok, watch))
 		e.cleanup(o.After)
 	} else if o.ServerPath != "" {
 		if _, err := os.Lstat(o.ServerPath); err == nil {
